@@ -1,9 +1,11 @@
 //! C39 — Log graph edges preserve ancestry.
 //!
-//! Bounded-exhaustive: every DAG on n commits (<= 3 parents, both parent orders when it has a
-//! merge) built in a real repository (simple backend) behind p padding commits (p in {0, 61,
-//! 62, 63}: the positions bit set of the walk crosses a 64-bit word), x every non-empty
-//! subset S of {root, 1..n} as the shown set x skip_transitive_edges in {false, true}. The
+//! Bounded-exhaustive: every DAG on n commits (<= 3 or 4 parents, both parent orders when it
+//! has a merge) built in a real repository (simple backend) with p unrelated commits before it
+//! in the index (p = 0 and p = 59..63 modulo 64: the positions bit sets of the walk cross a
+//! 64-bit word; 64 graphs share a repository, each is unrelated to everything before it), x
+//! every non-empty subset S of {root, 1..n} as the shown set x skip_transitive_edges in
+//! {false, true}. The
 //! graph stream of `DefaultReadonlyIndexRevset::iter_graph_impl` (what `Revset::stream_graph`
 //! and hence `jj log` use) is compared with a reference computed from the parent table:
 //!
@@ -470,21 +472,29 @@ fn signature(ts: i64) -> Signature {
 struct Built {
     _test_repo: TestRepo,
     repo: Arc<ReadonlyRepo>,
-    ids: Ids,
 }
 
-fn build(spec: &GraphSpec, g: &G) -> Built {
+/// Builds one repository holding `first_padding` unrelated commits followed by the given
+/// graphs one after the other (each graph is unrelated to everything before it, so for each of
+/// them all earlier commits are padding). Returns the graphs with their actual padding.
+///
+/// With `align`, filler commits are inserted before every graph so that the number of commits
+/// preceding it is congruent to `first_padding` modulo 64 (every graph gets the same alignment
+/// relative to the 64-bit words of the walk's bit sets).
+fn build_many(first_padding: usize, align: bool, graphs: &[Vec<Vec<usize>>]) -> (Built, Vec<(GraphSpec, G, Ids)>) {
     let test_repo = TestRepo::init_with_backend(testutils::TestRepoBackend::Simple);
     let repo0 = test_repo.repo.clone();
     let root = repo0.store().root_commit_id().clone();
-    let mut id_list = vec![root.clone()];
     let mut tx = repo0.start_transaction();
     let mut clock = 0i64;
+    let mut written = 0usize;
+    let mut creation_order: Vec<CommitId> = vec![root.clone()];
     let mut write = |tx: &mut jj_lib::transaction::Transaction, parents: Vec<CommitId>, desc: String| -> CommitId {
         clock += 1000;
         let tree = tx.repo_mut().store().empty_merged_tree();
         let sig = signature(clock);
-        tx.repo_mut()
+        let id = tx
+            .repo_mut()
             .new_commit(parents, tree)
             .set_description(desc)
             .set_author(sig.clone())
@@ -493,27 +503,59 @@ fn build(spec: &GraphSpec, g: &G) -> Built {
             .block_on()
             .unwrap_or_else(|e| machinery_failure(&format!("cannot write commit: {e}")))
             .id()
-            .clone()
+            .clone();
+        creation_order.push(id.clone());
+        id
     };
-    for k in 0..spec.padding {
+    for k in 0..first_padding {
         write(&mut tx, vec![root.clone()], format!("pad{k}"));
+        written += 1;
     }
-    for i in 1..=g.n {
-        let parents: Vec<CommitId> = g.parents[i].iter().map(|&p| id_list[p].clone()).collect();
-        let id = write(&mut tx, parents, format!("n{i}"));
-        id_list.push(id);
+    let mut out = vec![];
+    for (j, parents) in graphs.iter().enumerate() {
+        while align && written % 64 != first_padding % 64 {
+            write(&mut tx, vec![root.clone()], format!("fill{written}"));
+            written += 1;
+        }
+        let spec = GraphSpec { parents: parents.clone(), padding: written };
+        let g = G::new(&spec);
+        let mut id_list = vec![root.clone()];
+        for i in 1..=g.n {
+            let parents: Vec<CommitId> = g.parents[i].iter().map(|&p| id_list[p].clone()).collect();
+            let id = write(&mut tx, parents, format!("g{j}n{i}"));
+            written += 1;
+            id_list.push(id);
+        }
+        let map: HashMap<CommitId, usize> = id_list.iter().cloned().enumerate().map(|(i, id)| (id, i)).collect();
+        if map.len() != id_list.len() {
+            machinery_failure("commit ids collide");
+        }
+        out.push((spec, g, Ids { ids: id_list, map }));
     }
-    let repo = tx.commit("c39 graph").block_on().unwrap_or_else(|e| machinery_failure(&format!("commit: {e}")));
-    let map: HashMap<CommitId, usize> = id_list.iter().cloned().enumerate().map(|(i, id)| (id, i)).collect();
-    if map.len() != id_list.len() {
-        machinery_failure("commit ids collide");
-    }
+    let repo = tx.commit("c39 graphs").block_on().unwrap_or_else(|e| machinery_failure(&format!("commit: {e}")));
     let index: &DefaultReadonlyIndex =
         repo.readonly_index().downcast_ref().unwrap_or_else(|| machinery_failure("not the default index"));
-    if index.stats().num_commits as usize != 1 + spec.padding + g.n {
+    if index.stats().num_commits as usize != 1 + written {
         machinery_failure("index does not contain exactly the created commits");
     }
-    Built { _test_repo: test_repo, repo, ids: Ids { ids: id_list, map } }
+    // index positions are creation order: `all()` lists by descending position, so it must be
+    // the exact reverse of the order of writing (root = position 0); with that the claimed
+    // padding of every graph is its real offset in the index
+    let listed: Vec<CommitId> = jj_lib::revset::ResolvedRevsetExpression::all()
+        .evaluate(repo.as_ref())
+        .unwrap_or_else(|e| machinery_failure(&format!("all(): {e}")))
+        .stream()
+        .collect::<Vec<_>>()
+        .block_on()
+        .into_iter()
+        .map(|r| r.unwrap_or_else(|e| machinery_failure(&format!("all(): {e}"))))
+        .collect();
+    let mut expected: Vec<CommitId> = creation_order.clone();
+    expected.reverse();
+    if listed != expected {
+        machinery_failure("index order is not creation order");
+    }
+    (Built { _test_repo: test_repo, repo }, out)
 }
 
 // ---------------------------------------------------------------------------------------
@@ -524,6 +566,8 @@ struct Stats {
     walks: Counter,
     nontrivial: Counter,
     repos: Counter,
+    graphs: Counter,
+    graphs_straddling_a_word: Counter,
     repos_with_octopus: Counter,
     edges: Counter,
     indirect: Counter,
@@ -541,10 +585,20 @@ fn case_json(spec: &GraphSpec, s: u32, skip: bool) -> Value {
     json!({"graph": spec, "shown": nodes_of(s), "skip_transitive_edges": skip})
 }
 
-fn run_repo(ctx: &Ctx, st: &Stats, samples: &Samples, spec: &GraphSpec) {
-    let g = G::new(spec);
-    let built = build(spec, &g);
+/// One repository with `first_padding` unrelated commits and then the given graphs.
+fn run_repo(ctx: &Ctx, st: &Stats, samples: &Samples, first_padding: usize, align: bool, graphs: &[Vec<Vec<usize>>]) {
+    let (built, members) = build_many(first_padding, align, graphs);
     st.repos.inc();
+    for (spec, g, ids) in &members {
+        run_graph(ctx, st, samples, &built, spec, g, ids);
+    }
+}
+
+fn run_graph(ctx: &Ctx, st: &Stats, samples: &Samples, built: &Built, spec: &GraphSpec, g: &G, ids: &Ids) {
+    st.graphs.inc();
+    if (spec.padding + 1) / 64 != (spec.padding + g.n) / 64 {
+        st.graphs_straddling_a_word.inc();
+    }
     if g.parents.iter().any(|p| p.len() >= 3) {
         st.repos_with_octopus.inc();
     }
@@ -555,7 +609,7 @@ fn run_repo(ctx: &Ctx, st: &Stats, samples: &Samples, spec: &GraphSpec) {
         for skip in [false, true] {
             st.walks.inc();
             st.helper_walks.inc();
-            match check_walk(built.repo.as_ref(), &g, &built.ids, s, skip, true) {
+            match check_walk(built.repo.as_ref(), g, ids, s, skip, true) {
                 Ok(info) => {
                     st.edges.add(info.edges as u64);
                     st.indirect.add(info.indirect as u64);
@@ -586,19 +640,17 @@ fn run_repo(ctx: &Ctx, st: &Stats, samples: &Samples, spec: &GraphSpec) {
     }
 }
 
-fn specs(n: usize, max_parents: usize, paddings: &[usize]) -> Vec<GraphSpec> {
+/// every DAG, with `both_orders` in both parent orders when it has a merge
+fn variants(n: usize, max_parents: usize, both_orders: bool) -> Vec<Vec<Vec<usize>>> {
     let mut out = vec![];
     for dag in all_dags(n, max_parents) {
         let fwd: Vec<Vec<usize>> =
             dag.parents.iter().map(|ps| if ps.is_empty() { vec![0] } else { ps.iter().map(|p| p + 1).collect() }).collect();
         let has_merge = fwd.iter().any(|p| p.len() >= 2);
-        for &padding in paddings {
-            out.push(GraphSpec { parents: fwd.clone(), padding });
-            if has_merge {
-                let rev: Vec<Vec<usize>> = fwd.iter().map(|p| p.iter().rev().copied().collect()).collect();
-                out.push(GraphSpec { parents: rev, padding });
-            }
+        if has_merge && both_orders {
+            out.push(fwd.iter().map(|p| p.iter().rev().copied().collect()).collect());
         }
+        out.push(fwd);
     }
     out
 }
@@ -609,10 +661,10 @@ fn replay(case: &Value) -> Result<(), Fail> {
     let shown: Vec<usize> = serde_json::from_value(case["shown"].clone())
         .unwrap_or_else(|e| machinery_failure(&format!("bad replay shown set: {e}")));
     let skip = case["skip_transitive_edges"].as_bool().unwrap_or_else(|| machinery_failure("bad replay mode"));
-    let g = G::new(&spec);
-    let built = build(&spec, &g);
+    let (built, members) = build_many(spec.padding, false, std::slice::from_ref(&spec.parents));
+    let (_, g, ids) = &members[0];
     let s = shown.iter().fold(0, |a, &i| a | bit(i));
-    check_walk(built.repo.as_ref(), &g, &built.ids, s, skip, true).map(|_| ())
+    check_walk(built.repo.as_ref(), g, ids, s, skip, true).map(|_| ())
 }
 
 fn main() {
@@ -624,15 +676,31 @@ fn main() {
         }
         ctx.finish(Coverage { evaluations: 1, ..Default::default() });
     }
-    // (n, max parents, paddings)
-    let plans: Vec<(usize, usize, Vec<usize>)> = ctx.pick(
-        vec![(5, 3, vec![0, 62])],
-        vec![(6, 3, vec![0, 61, 62, 63]), (5, 4, vec![0, 61, 62, 63])],
+    // Plans. Repositories hold 64 graph variants written one after the other (each graph is
+    // unrelated to everything before it). `Aligned(ps)`: for every p in ps, filler commits make
+    // the number of commits preceding every graph congruent to p modulo 64 (p = 0, 64, 128, ...
+    // for p = 0), so every graph is walked at exactly that alignment to the 64-bit words of
+    // the bit sets. `Packed(ps)`: no filler, only p unrelated commits first, so the graphs sit
+    // at varied offsets.
+    enum Layout {
+        Aligned(Vec<usize>),
+        Packed(Vec<usize>),
+    }
+    // (commits, max parents, both parent orders of merges?, layout)
+    let plans: Vec<(usize, usize, bool, Layout)> = ctx.pick(
+        vec![(5, 3, true, Layout::Aligned(vec![0, 61, 63])), (6, 2, false, Layout::Packed(vec![58]))],
+        vec![
+            (5, 4, true, Layout::Aligned(vec![0, 59, 60, 61, 62, 63])),
+            (6, 3, true, Layout::Aligned(vec![0, 62])),
+            (6, 3, true, Layout::Packed(vec![58, 60])),
+        ],
     );
     let st = Stats {
         walks: Counter::new(),
         nontrivial: Counter::new(),
         repos: Counter::new(),
+        graphs: Counter::new(),
+        graphs_straddling_a_word: Counter::new(),
         repos_with_octopus: Counter::new(),
         edges: Counter::new(),
         indirect: Counter::new(),
@@ -647,17 +715,27 @@ fn main() {
     };
     let samples = Samples::new(5);
     let mut plan_desc = vec![];
-    for (n, max_parents, paddings) in &plans {
-        let before = st.walks.get();
+    for (n, max_parents, both_orders, layout) in &plans {
+        let (w0, r0, g0, x0) = (st.walks.get(), st.repos.get(), st.graphs.get(), st.graphs_straddling_a_word.get());
         let t0 = ctx.elapsed_s();
-        let jobs = specs(*n, *max_parents, paddings);
-        jobs.par_iter().for_each(|spec| run_repo(&ctx, &st, &samples, spec));
+        let vs = variants(*n, *max_parents, *both_orders);
+        let (name, paddings, align) = match layout {
+            Layout::Aligned(paddings) => ("64 graph variants per repository, each preceded by filler commits up to the padding modulo 64", paddings, true),
+            Layout::Packed(paddings) => ("64 graph variants per repository, one directly after the other behind the padding", paddings, false),
+        };
+        let jobs: Vec<(usize, &[Vec<Vec<usize>>])> = paddings.iter().flat_map(|&p| vs.chunks(64).map(move |c| (p, c))).collect();
+        jobs.par_iter().for_each(|(p, c)| run_repo(&ctx, &st, &samples, *p, align, c));
         plan_desc.push(json!({
             "commits": n,
             "max_parents": max_parents,
+            "both_parent_orders_of_merges": both_orders,
+            "graph_variants": vs.len(),
+            "layout": name,
             "paddings": paddings,
-            "repositories": jobs.len(),
-            "walks": st.walks.get() - before,
+            "repositories": st.repos.get() - r0,
+            "graphs_walked": st.graphs.get() - g0,
+            "graphs_whose_positions_straddle_a_64_bit_word": st.graphs_straddling_a_word.get() - x0,
+            "walks": st.walks.get() - w0,
             "wall_s": ((ctx.elapsed_s() - t0) * 10.0).round() / 10.0,
         }));
     }
@@ -668,6 +746,7 @@ fn main() {
             ("walks_with_skipped_edge", &st.walks_with_skipped_edge),
             ("topo_reordered", &st.topo_reordered),
             ("repos_with_octopus", &st.repos_with_octopus),
+            ("graphs_straddling_a_word", &st.graphs_straddling_a_word),
         ] {
             if c.get() == 0 {
                 machinery_failure(&format!("vacuous: counter {name} is zero"));
@@ -677,7 +756,9 @@ fn main() {
     let mut extra: BTreeMap<String, Value> = BTreeMap::new();
     extra.insert("plans".into(), json!(plan_desc));
     extra.insert("repositories_built".into(), json!(st.repos.get()));
-    extra.insert("repositories_with_a_3_parent_merge".into(), json!(st.repos_with_octopus.get()));
+    extra.insert("graphs_walked".into(), json!(st.graphs.get()));
+    extra.insert("graphs_whose_positions_straddle_a_64_bit_word".into(), json!(st.graphs_straddling_a_word.get()));
+    extra.insert("graphs_with_a_3_parent_merge".into(), json!(st.repos_with_octopus.get()));
     extra.insert("edges_checked".into(), json!(st.edges.get()));
     extra.insert("indirect_edges".into(), json!(st.indirect.get()));
     extra.insert("missing_edges".into(), json!(st.missing.get()));
@@ -692,7 +773,8 @@ fn main() {
         evaluations: st.walks.get(),
         distinct_nontrivial: st.nontrivial.get(),
         rule: "case = (commit graph [every DAG on n commits with <= max_parents parents, both parent orders if it has a \
-               merge], padding [that many unrelated commits written first], shown set [every non-empty subset of \
+               merge where the plan says so], padding [that many unrelated commits precede it in the index: the listed paddings, or its \
+               offset in a packed repository], shown set [every non-empty subset of \
                {root, 1..n}], skip_transitive_edges [false, true]); each case is generated once and is one graph walk of \
                the real RevsetGraphWalk plus reverse_graph and TopoGroupedGraph over its output; non-trivial = the walk \
                produced at least one indirect edge (some shown commit has a hidden parent that leads back into the set)"
